@@ -156,9 +156,9 @@ POOLED = ["K 1 1 600 U a 300", "K 1 1 600 P a 300", "K 1 1 600 S a 300", "K 1 1 
           "K 1 1 600 a,b,c,a d,a 300", "K 1 1 600 W a,W 300", "K 1 2 600 U,W a,a 300", "K 1 1 600 h a 300", "K 1 1 600 H a,a 300"]
 
 
-# the next request begins in the read that ends the previous one: Handler::onInput serves one request per read and its reset drops
-# the rest of the buffer - the next request is lost, or (its head dropped) parsed from its middle (open finding
-# C04-next-request-in-same-read; the expectations are the property's)
+# the next request begins in the read that ends the previous one: Handler::onInput served one request per read and its reset dropped
+# the rest of the buffer - the next request was lost, or (its head dropped) parsed from its middle (finding
+# C04-next-request-in-same-read, fixed: onInput now loops over what a complete request leaves behind; the expectations are the property's)
 _M1 = b"GET /one HTTP/1.1\r\nHost: a\r\n\r\n"
 SAME_READ = {
     "Z 4096 " + pv.hexs(_M1 + b"GET /two?q=2 HTTP/1.1\r\nHost: b\r\n\r\n"): "Z codes=200,200 handler=2 seen=/one:0,/two:0",
@@ -167,14 +167,19 @@ SAME_READ = {
 
 
 class C04WithClient(C04):
-    def same_read(self, rep):
+    def same_read(self, rep, tier="quick", seed=1):
+        from props.c14 import pipelined_cases
         exe = pv.build_harness("h_timeout", "plain")
-        cases = list(SAME_READ)
-        impl, _ = pv.run_parallel([exe], cases, shard=1, env={"PV_CASE_TIMEOUT": "30"})
-        for c, i in zip(cases, impl):
-            if i != SAME_READ[c]:
+        drv = pv.build_model_driver()
+        want = dict(SAME_READ)
+        want.update(dict(pipelined_cases(pv.rng_for(seed, "C04-same-read"), tier)))
+        cases = list(want)
+        impl, _ = pv.run_parallel([exe], cases, shard=2, env={"PV_CASE_TIMEOUT": "30"})
+        model, _ = pv.run_parallel([drv, "timeout"], cases)
+        for c, i, m in zip(cases, impl, model):
+            if i != want[c] or m != want[c]:
                 what = ("a request that begins in the read that ends the previous one is not parsed as on a fresh connection: the server did '%s', "
-                        "expected '%s'" % (i, SAME_READ[c]))
+                        "HandlerModel.serve says '%s', expected '%s'" % (i, m, want[c]))
                 k = self.known(c, i, None, what)
                 if k:
                     rep.known_finding(k[0], k[1])
@@ -183,7 +188,7 @@ class C04WithClient(C04):
         return len(cases)
 
     def extra(self, rep, tier, seed):
-        self.same_read(rep)
+        self.same_read(rep, tier, seed)
         from props.c15 import C15, strip_conn
         c15 = C15()
         exe = pv.build_harness("h_client", "plain")
